@@ -25,7 +25,7 @@ Lemma tie_ablk off n bs ov u :
 Proof. cbv zeta. unfold mk_ablk, gen_in_lo, gen_in_len, gen_out_lo, gen_out_len, gen_outer_hi_term. cbn [in_lo in_hi out_lo out_hi]. repeat split; lia. Qed.
 
 Lemma tie_structure :
-  gen_rows_outer_bands_outermost = true /\ gen_block_pair_fields_ok = true /\ gen_outer_ok = true /\ gen_block_guard_ok = true /\
+  gen_rows_outer_bands_outermost = true /\ gen_block_pair_fields_ok = true /\ gen_outer_ok = true /\
   gen_other_in_ok = true /\ gen_other_out_ok = true /\ gen_fuse_passes_overlap = true /\ gen_compare_no_overlap = true.
 Proof. repeat split; reflexivity. Qed.
 
@@ -70,7 +70,7 @@ Theorem blocks_tied off n bs ov u :
    gen_in_lo u bs ov off (off + n) = in_lo b /\ gen_in_lo u bs ov off (off + n) + gen_in_len u bs ov off (off + n) = in_hi b /\
    gen_out_lo u bs ov off (off + n) = out_lo b /\ gen_out_lo u bs ov off (off + n) + gen_out_len u bs ov off (off + n) = out_hi b /\
    gen_outer_hi_term u bs ov off (off + n) = in_hi b) /\
-  (gen_rows_outer_bands_outermost = true /\ gen_block_pair_fields_ok = true /\ gen_outer_ok = true /\ gen_block_guard_ok = true /\
+  (gen_rows_outer_bands_outermost = true /\ gen_block_pair_fields_ok = true /\ gen_outer_ok = true /\
    gen_other_in_ok = true /\ gen_other_out_ok = true /\ gen_fuse_passes_overlap = true /\ gen_compare_no_overlap = true).
 Proof. split; [exact blocks_translated|]. split; [apply tie_uls|]. split; [apply tie_ablk|apply tie_structure]. Qed.
 
